@@ -47,7 +47,12 @@ def generate(ctx):
             items.append([how, mu, sg, rng.choice(NAMES)])
         nctor += 1
         yield "ctor", dict(model=MODEL_NAMES[(nctor // 16 + ctx.shard) % 5] if nctor % 16 == 0 else rng.choice(MODEL_NAMES),
-                           cfg=dict(mu=rng.choice([25.0, 0.0, -3.0, 7]), sigma=rng.choice([25 / 3, 1.0, 0.5])),
+                           cfg=(dict(mu=rng.choice([25.0, 0.0, -3.0, 7]), sigma=rng.choice([25 / 3, 1.0, 0.5])) if rng.random() < 0.5 else
+                                # arbitrary model defaults (one-decimal league settings and continuous draws): a default that is
+                                # re-derived from other stored quantities (mu / z, 3 * (mu / 3) ...) is off by an ulp for a fraction
+                                # of such pairs only (seeded C20-N)
+                                dict(mu=rng.choice([round(rng.uniform(-50, 50), 1), rng.uniform(-50, 50), float(rng.randint(1, 3000))]),
+                                     sigma=rng.choice([round(rng.uniform(0.1, 12), 1), rng.uniform(0.05, 12), rng.randint(1, 400) / 3]))),
                            items=items, fork=(nctor % 16 == 0))
     combos = [(m, mode) for m in MODEL_NAMES for mode in ("skill", "random", "adversarial")]
     G = 1000 if ctx.tier == "quick" else 20000
@@ -255,6 +260,27 @@ def probe_ctor(ctx, payload):
                                   model_name, "subclass")
             except Exception as e:  # noqa: BLE001
                 ctx.violation("deepcopy/exception", "ctor", payload, dict(subclass=which, exc=repr(e)), model_name, "subclass")
+    # a stored SNAPSHOT of a player next to that player's current rating (same id, different numbers: match archives, undo
+    # buffers) in one nested container: one deepcopy call must preserve each object's own values (seeded C20-M memoised
+    # the copy under the player's id)
+    if len(made) >= 2:
+        ctx.ev("deepcopy")
+        ctx.ev("deepcopy/snapshot-beside-current")
+        try:
+            snap = copy.deepcopy(made[0])
+            cur = copy.deepcopy(made[0])
+            cur.mu, cur.sigma, cur.name = float(made[0].mu) + 1.25, float(made[0].sigma) * 0.5 + 0.125, "current"
+            for cont in ([[snap, made[1]], [cur]], [[cur], [made[1], snap]], [snap, cur], {"then": [snap], "now": [cur]}):
+                d = copy.deepcopy(cont)
+                flat = (lambda c: [p for t in (c.values() if isinstance(c, dict) else c) for p in (t if isinstance(t, list) else [t])])
+                for c, o in zip(flat(d), flat(cont)):
+                    if c is o or c.id != o.id or c.name != o.name or not _exact(c.mu, o.mu) or not _exact(c.sigma, o.sigma):
+                        ctx.violation("deepcopy/snapshot-beside-current", "ctor", payload,
+                                      dict(container=type(cont).__name__, orig=[repr(o.mu), repr(o.sigma), o.name, o.id],
+                                           copy=[repr(c.mu), repr(c.sigma), c.name, c.id], same_object=c is o), model_name, "snapshot")
+                        break
+        except Exception as e:  # noqa: BLE001
+            ctx.violation("deepcopy/exception", "ctor", payload, dict(exc=repr(e)), model_name, "snapshot")
     if len(made) >= 4:
         nested = [[made[0], made[1]], [made[2]], [made[3], made[0]]]
         ctx.ev("deepcopy")
